@@ -127,7 +127,13 @@ func c10Profiles(tier string) []Profile {
 	aborted := Profile{Name: "aborted-mutations", Exec: OnlyOracles(c07Exec(1, 1, false), "observe", "model", "recycle", "durable"),
 		Budget: map[int]int{1: 0, 2: 0, 3: 1}, ShardLevel: 3,
 		Rule: "recycling after a mutation that was abandoned half-way: the C07 driver (5 initial stores incl. a re-opened 7-item tree x every single operation x one failing file call at every index, retried or not) followed by a mutation, Flush, full read battery, Reopen, full read battery; only the contents oracles are kept"}
-	return []Profile{aborted, readersProfile(dr).Profile(readersRule(dr)), p.Profile(fmt.Sprintf("every history of length <= %d over two stores sharing the process-wide free lists (A: file-backed, collections x,y; B: memory-only): Set/Delete/Evict, Flush, SetCollection on an existing name, remove+recreate, Snapshot/read/revert/close of a snapshot, an iterator left open across letters (Next/Close), mutations nested inside a visitor callback, closing and renewing B; oracles: no node on the free list is reachable from any open handle, and after a churn phase that reuses everything freed, every open handle still equals the model and every open iterator delivers exactly the version it pinned", d))}
+	var conc []Profile
+	for _, sc := range c05More() {
+		if sc.Name == "S12-snapshot-replaced" || sc.Name == "S5-snapshot" || sc.Name == "S11-slow-get" {
+			conc = append(conc, sc.Profile(1))
+		}
+	}
+	return append(conc, aborted, readersProfile(dr).Profile(readersRule(dr)), p.Profile(fmt.Sprintf("every history of length <= %d over two stores sharing the process-wide free lists (A: file-backed, collections x,y; B: memory-only): Set/Delete/Evict, Flush, SetCollection on an existing name, remove+recreate, Snapshot/read/revert/close of a snapshot, an iterator left open across letters (Next/Close), mutations nested inside a visitor callback, closing and renewing B; oracles: no node on the free list is reachable from any open handle, and after a churn phase that reuses everything freed, every open handle still equals the model and every open iterator delivers exactly the version it pinned", d)))
 }
 
 func init() {
